@@ -172,6 +172,19 @@ func init() {
 			panic(pathAbort{kind: abortAssertFail, msg: "vUnreachable: " + a[0].(string)})
 		},
 		"vSymbolic": func(fr *frame, a []value) value { return true },
+		// vStepLimit(n, msg): the code executed from here on must finish
+		// within n interpreter steps (bounded termination as a safety
+		// property); vStepLimit(0, "") lifts the limit.
+		"vStepLimit": func(fr *frame, a []value) value {
+			n := fr.i.concretize(a[0], nil)
+			if n <= 0 {
+				fr.i.ps.termLimit = 0
+			} else {
+				fr.i.ps.termLimit = fr.i.ps.steps + n
+				fr.i.ps.termMsg = a[1].(string)
+			}
+			return nil
+		},
 		// vMemo(key, fn): the result of the concrete, deterministic set-up fn
 		// is computed once per worker and shared by all paths.  Everything
 		// reachable from it is frozen: a later store into it ends the path.
